@@ -686,15 +686,64 @@ class Flow:
                 env = self.env_at(decl)
                 self._partial = False
                 p, q = self.cond2(init, env)
-                # only mask facts are position independent (they speak about incoming values)
+                # mask facts are position independent (they speak about incoming values); any other atom is kept
+                # only if nothing it mentions is assigned after the declaration of the named test (lexically later
+                # in the function: from then on the usual kill-on-assignment of the fact dataflow takes over at the
+                # point of use, so only writes between the definition and the use could invalidate it)
+                later = self._keys_written_after(decl)
 
                 def keep(x):
                     if x is None:
                         return None
-                    r = frozenset(frozenset(l for l in cj if l[0].startswith('b:')) for cj in x)
+                    r = frozenset(frozenset(l for l in cj if l[0].startswith('b:') or self._atom_stable_after(l[0], later))
+                                  for cj in x)
                     return None if (frozenset() in r or not r) else r
                 c[d] = (keep(p), keep(q))
         return c[d]
+
+    def _keys_written_after(self, decl):
+        """{key: first line} of variables assigned lexically after statement decl (loops: anywhere in an enclosing loop)."""
+        fn = self.fn
+        dl = fn.nodes[decl]['l']
+        loops = [a for a in fn.ancestors(decl) if fn.nodes[a]['k'] in ('ForStmt', 'WhileStmt', 'DoStmt', 'CXXForRangeStmt')]
+        inloop = set()
+        for a in loops:
+            inloop |= set(fn.walk(a))
+        out = {}
+        for i, n in fn.all_nodes():
+            if n['l'] < dl and i not in inloop:
+                continue
+            for k in self.written_keys(i):
+                out.setdefault(k, n['l'])
+        return out
+
+    def _atom_stable_after(self, atom, later):
+        """no variable the atom mentions is written before the end of the statement that first tests the named
+        bool; approximated by: the first write is at least two lines below the declaration's uses... conservatively:
+        the mentioned variables are never written after the declaration except inside branches guarded by the named
+        test itself (handled by the dataflow kill).  Here: accept only atoms none of whose variables is written at
+        all after the declaration, or only written on lines after every read of the bool."""
+        men = self.mentions.get(atom)
+        if not men:
+            return False
+        for k in men:
+            if k in later or (k.startswith('this.') and 'this.*' in later):
+                # written later: acceptable only if after the last read of any named test (see _last_bool_read)
+                if later.get(k, later.get('this.*')) <= self._last_bool_read():
+                    return False
+        return True
+
+    def _last_bool_read(self):
+        r = getattr(self, '_lbr', None)
+        if r is None:
+            fn = self.fn
+            names = set(self._boolinit)
+            r = 0
+            for i, n in fn.all_nodes():
+                if n['k'] == 'DeclRefExpr' and n.get('d') in names:
+                    r = max(r, n['l'])
+            self._lbr = r
+        return r
 
     def _atom2(self, nid):
         c = self.canon.of(nid)
